@@ -258,9 +258,14 @@ class SymV:
     def getattr(self, obj, name):
         return self.interp.getattr_(obj, name)
 
-    def invariant(self, fn, ordinal, inv, shapes=None, variant=None, label=None):
+    def invariant(self, fn, ordinal, inv, shapes=None, variant=None, label=None, where=None):
+        """loop invariant for loop number `ordinal` of `fn`; with where=pred(for_node, frame, seq) the invariant is ALSO offered to any for-loop over a
+        symbolic sequence that has no invariant of its own and satisfies pred (the loop may have been moved into a helper)"""
         qn = fn if isinstance(fn, str) else self.interp.qualname_of(fn)
-        self.interp.invariants[(qn, ordinal)] = LoopSpec(inv, shapes, variant, label)
+        spec = LoopSpec(inv, shapes, variant, label or qn.split(":")[-1])
+        self.interp.invariants[(qn, ordinal)] = spec
+        if where is not None:
+            self.interp.invariants.setdefault("@where", []).append((where, spec))
 
     def contract(self, fn, name, requires, result):
         key = getattr(fn, "__func__", fn)
@@ -285,10 +290,20 @@ class SymV:
             elif isinstance(st, _ast.AugAssign):
                 targets = [st.target]
             for t in targets:
-                if isinstance(t, _ast.Name) and t.id == after_last_assignment_to:
+                if callable(after_last_assignment_to):
+                    # structural anchor: anchor(statement) -> the name the environment binds the value to (None: not the anchor)
+                    nm = after_last_assignment_to(st) if isinstance(t, _ast.Name) else None
+                    if nm is not None:
+                        idx = i
+                        if nm != t.id:
+                            env = dict(env)
+                            env[t.id] = env.pop(nm)
+                elif isinstance(t, _ast.Name) and t.id == after_last_assignment_to:
                     idx = i
         if idx is None:
             raise Unsupported("no top-level assignment to %r in %s" % (after_last_assignment_to, fn.__qualname__))
+        if callable(after_last_assignment_to):
+            after_last_assignment_to = "<anchor>"
         tail = _ast.FunctionDef(name=node.name, args=_ast.arguments(posonlyargs=[], args=[], kwonlyargs=[], kw_defaults=[], defaults=[]),
                                 body=node.body[idx + 1:], decorator_list=[], lineno=node.body[idx + 1].lineno, col_offset=0)
         qn = self.interp.qualname_of(fn)
